@@ -46,6 +46,11 @@ def jobs(tier):
                 J.append(Job("prog", "lfht", P1, {"victims": 1, "vkind": vk, "hmap": hm, "init": init}, workers=4))
             if not q or (vk == 0 and hm == 0):
                 J.append(Job("prog", "lfht", P2, {"victims": 2, "vkind": vk, "hmap": hm}, workers=8))
+    for init in (8, 4, 2):
+        for n in (5, 7):
+            for cco in (0, 1):
+                J.append(Job("prog", "lfht_acct", "0,0,0,0", {"init": init, "n": n, "count_commit_order": cco, "hmap": 0}, workers=2))
+                J.append(Job("prog", "lfht_acct", "1,0,0,0", {"init": init, "n": n, "count_commit_order": cco, "hmap": 1}, workers=4))
     if not q:
         J.append(Job("prog", "wfcq", P3, {"victims": 2, "prefill": 1}, workers=16))
         J.append(Job("prog", "lfq", P3, {"victims": 2, "prefill": 1}, workers=16))
